@@ -265,6 +265,9 @@ class State(object):
             self.ex.seen_obl.add(sig)
             ob = Obligation(self.ex.func_key, label, lineno or self.lineno, list(self.pc), goal,
                             tuple(self.decisions[:self.dpos]), kind)
+            # for the native replay of a counter-model: the function's entry state and the outcome of this path
+            ob.entry = getattr(self, 'entry_info', None)
+            ob.outcome = getattr(self, 'outcome_info', None)
             self.ex.obligations.append(ob)
             self.ex.keepalive.append((goal, list(self.pc)))
         if z3.is_false(g):
